@@ -21,7 +21,7 @@ import json
 from vlib import core, minifort as mf, fortgen
 
 HEADER = """From Coq Require Import List ZArith Bool. Import ListNotations.
-From PV Require Import Fort.Syntax Fort.Sem Base.Harness C11.Access C11.Proofs C11.Ext C11.Struct.
+From PV Require Import Fort.Syntax Fort.Sem Base.Harness C11.Access C11.Proofs C11.Ext C11.Struct C11.StructX.
 Definition c11_case := (list xstmt * obs * nat * bool)%type.
 (* (program, observed per-signature accesses, observed final location, lenient?) *)
 Definition c11_check (c : c11_case) : bool :=
@@ -44,9 +44,11 @@ Definition c11_xv_check (c : c11_xv) : bool :=
   end.
 (* one case type so that all evaluations share the coqc runs *)
 Inductive c11_any := AObs (c : c11_case) | AXv (c : c11_xv) | AOk (ss : list stmt) (expect : bool)
-  | ASt (tbl : list (list name * name)) (x : sstmt) (o : obs) (n : nat).
+  | ASt (tbl : list (list name * name)) (x : sstmt) (o : obs) (n : nat)
+  | AFs (tbl : list (list name * name)) (x : fstmt) (o : obs) (n : nat).
 Definition c11_any_check (a : c11_any) : bool :=
   match a with
+  | AFs tbl x o n => fobs_agrees tbl x o n
   | ASt tbl x o n => sobs_agrees tbl x o n
   | AObs c => c11_check c
   | AXv c => c11_xv_check c
@@ -555,6 +557,78 @@ def sstmt_to_coq(s, nm):
     return "[" + "; ".join("(%s, %d%%nat)" % (kk, v) for kk, v in sorted(tbl.items())) + "]", term
 
 
+# ---- C11.StructX: structure accesses as a first-class expression form, nested statements
+def fexprs_to_coq(es, nm, tbl):
+    out = "ENil"
+    for e in reversed(es):
+        out = "(ECons %s %s)" % (fexpr_to_coq(e, nm, tbl), out)
+    return out
+
+
+def fexpr_to_coq(e, nm, tbl):
+    k = e[0]
+    if k == "lit":
+        return "(FLit (%d))" % e[1]
+    if k == "var":
+        return "(FVar %d%%nat)" % nm.get(e[1])
+    if k == "idx":
+        return "(FIdx %d%%nat %s)" % (nm.get(e[1]), fexprs_to_coq(e[2], nm, tbl))
+    if k == "un":
+        return "(FUn %s %s)" % (e[1], fexpr_to_coq(e[2], nm, tbl))
+    if k == "bin":
+        return "(FBin %s %s %s)" % (e[1], fexpr_to_coq(e[2], nm, tbl), fexpr_to_coq(e[3], nm, tbl))
+    if k == "intr":
+        return "(FIntr %s %s)" % (e[1], fexprs_to_coq(e[2], nm, tbl))
+    if k == "sref":
+        return "(FRef %s)" % fpath_to_coq(e, nm, tbl)
+    raise ValueError(e)
+
+
+def fpath_to_coq(e, nm, tbl):
+    tbl["[" + "; ".join("%d%%nat" % nm.get("#" + c) for c, _ in e[1]) + "]"] = nm.get(sref_sig(e))
+    out = "PNil"
+    for c, ix in reversed(e[1]):
+        out = "(PCons %d%%nat %s %s)" % (nm.get("#" + c), fexprs_to_coq(ix, nm, tbl), out)
+    return out
+
+
+def fblock_to_coq(ss, nm, tbl):
+    terms = [fstmt_term(s, nm, tbl) for s in ss]
+    if any(t is None for t in terms):
+        return None
+    out = "BNil"
+    for t in reversed(terms):
+        out = "(BCons %s %s)" % (t, out)
+    return out
+
+
+def fstmt_term(s, nm, tbl):
+    k = s[0]
+    if k == "sassign":
+        return "(FAssign (FTRef %s) %s)" % (fpath_to_coq(s[1], nm, tbl), fexpr_to_coq(s[2], nm, tbl))
+    if k == "assign":
+        return "(FAssign (FTVar %d%%nat %s) %s)" % (nm.get(s[1]), fexprs_to_coq(s[2], nm, tbl), fexpr_to_coq(s[3], nm, tbl))
+    if k == "call":
+        cf = {"user": "(CUser false)", "iparsed": "(CUser false)", "pure": "(CUser true)"}.get(s[1], "CIntrinsic")
+        return "(FCall %s [%s] %s)" % (cf, "; ".join(INTENT_COQ[i] for i in s[3]), fexprs_to_coq(s[4], nm, tbl))
+    if k == "if":
+        th, el = fblock_to_coq(s[2], nm, tbl), fblock_to_coq(s[3], nm, tbl)
+        return None if th is None or el is None else "(FIf %s %s %s)" % (fexpr_to_coq(s[1], nm, tbl), th, el)
+    if k == "do":
+        body = fblock_to_coq(s[5], nm, tbl)
+        return None if body is None else "(FDo %d%%nat %s %s %s %s)" % (
+            nm.get(s[1]), fexpr_to_coq(s[2], nm, tbl), fexpr_to_coq(s[3], nm, tbl), fexpr_to_coq(s[4], nm, tbl), body)
+    return None          # WHILE, PRINT, EXIT, CYCLE, RETURN are not in C11.StructX.fstmt
+
+
+def fstmt_to_coq(s, nm):
+    tbl = {}
+    t = fstmt_term(s, nm, tbl)
+    if t is None:
+        return None
+    return "[" + "; ".join("(%s, %d%%nat)" % (kk, v) for kk, v in sorted(tbl.items())) + "]", t
+
+
 # ------------------------------------------------------------------------------------ interpreter
 class Rec:
     """per statement path: union of variables read / written, and per execution of an assignment the
@@ -859,6 +933,10 @@ def targeted():
     out.append([("while", B("Lt", V("w"), ("intr", "IMin", [S(("grid", [V("ii")]), ("x", [V("jj")])), L(2)])),
                  [("assign", "w", [], B("Add", V("w"), L(1)))])])
     out.append([("do", "j", L(1), L(2), L(1), [("call", "user", "sub_x", ["inout"], [gcv], [None])])])
+    # do i = 1, grid(k)%g ; a(sg%x(i)) = max(grid(i)%cells(j)%f, 0) ; end do     (the StructX non-vacuity shape)
+    out.append([("do", "i", L(1), S(("grid", [V("k")]), ("g", [])), L(1),
+                 [("assign", "a", [S(("sg", []), ("x", [V("i")]))], ("intr", "IMax", [S(("grid", [V("i")]), ("cells", [V("j")]), ("f", [])), L(0)]))])])
+    out.append([("sassign", S(("grid", [S(("sg", []), ("x", [V("ii")]))]), ("cells", [V("jj")]), ("vals", [I("a", S(("sg", []), ("g", [])))])), V("s"))])
     out.append([("return",)])
     return out
 
@@ -1077,9 +1155,13 @@ def run(ctx):
                 nm = mf.Names()
                 for x in sorted(xnames([s], set())):
                     nm.get(x)
-                st = sstmt_to_coq(s, nm)
-                ctx.hist("struct_stmt_in_coq_form", bool(st))
-                if st:
+                fs = fstmt_to_coq(s, nm)
+                st = None if fs else sstmt_to_coq(s, nm)
+                ctx.hist("struct_stmt_coq_form", "StructX" if fs else "Struct" if st else "none (property only)")
+                if fs:
+                    coq_cases.append("(AFs %s %s %s %d%%nat)" % (fs[0], fs[1], obs_to_coq(r[1], nm), r[2]))
+                    case_info.append((pi, p, s, r, contains_gap_form(s), txt))
+                elif st:
                     coq_cases.append("(ASt %s %s %s %d%%nat)" % (st[0], st[1], obs_to_coq(r[1], nm), r[2]))
                     case_info.append((pi, p, s, r, contains_gap_form(s), txt))
         # whole routine body (list of nodes)
@@ -1217,8 +1299,9 @@ def run(ctx):
             for x in sorted(xnames(s if p == () else [s], set())):
                 nm.get(x)
             if p != () and has_sref(s):
-                st = sstmt_to_coq(s, nm)
-                shown = ctx.coq_eval_show(HEADER, ["sacc_stmt (enc_tbl %s) %s 0" % st])
+                fs = fstmt_to_coq(s, nm)
+                shown = ctx.coq_eval_show(HEADER, ["facc_stmt (enc_tbl2 %s) %s 0" % fs if fs else
+                                                   "sacc_stmt (enc_tbl %s) %s 0" % sstmt_to_coq(s, nm)])
             else:
                 term = "[" + "; ".join(xstmt_to_coq(x, nm) for x in (s if p == () else [s])) + "]"
                 shown = ctx.coq_eval_show(HEADER, ["(xaccesses %s, snd (xacc_block %s 0))" % (term, term)])
